@@ -10,8 +10,15 @@ open Emboss.Lr1
 #print axioms C08_valid_not_terminating_counterexample
 #print axioms C08_decides
 #print axioms C08_terminates_accepting
-#print axioms C08_gen_valid_partial
+#print axioms C08_gen_valid
+#print axioms C08_gen_correct
+#print axioms C08_gen_fuel_sufficient
+#print axioms C08_gen_total
+#print axioms C08_gen_ambiguous_conflicts
 #print axioms C08_gen_closure
 #print axioms C08_gen_goto
 #print axioms C08_error_position
+#print axioms C08_reduced_check_sound
+#print axioms C08_error_position_checked
+#print axioms C08_gen_error_position
 #print axioms C08_error_position_unproductive_counterexample
